@@ -100,9 +100,39 @@ func startStream(conn *sched.Conn, consumer string, pBefore, pAfter int, shutdow
 	if len(shutdownAfter) > 0 {
 		s.shutdownAfter = shutdownAfter[0]
 	}
-	s.stream = util.NewMessageStream(conn, s.parser)
+	// the constructor runs in a goroutine of its own: should it never return (every goroutine parked, the logical clock
+	// still), that is a verdict of its own and the caller gets nil
+	made := make(chan *util.MessageStream, 1)
+	go func() { made <- util.NewMessageStream(conn, s.parser) }()
+	streak := 0
+	for s.stream == nil {
+		select {
+		case s.stream = <-made:
+		default:
+			runtime.Gosched()
+			time.Sleep(200 * time.Microsecond)
+			if p, _ := sched.AllParked(); p {
+				streak++
+			} else {
+				streak = 0
+			}
+			if streak >= 200 { // 200 consecutive samples with nothing runnable
+				select {
+				case s.stream = <-made:
+				default:
+					return nil
+				}
+			}
+		}
+	}
 	go s.consume()
 	return s
+}
+
+// constructorWedged reports the verdict for a stream whose constructor never returned.
+func constructorWedged(c *fw.Ctx, kind string) {
+	c.Violation(kind, "wedge", "stream-constructor", "util.NewMessageStream did not return: every goroutine of the process is parked and nothing can wake it (deadlock while setting the stream up)")
+	c.Recycle()
 }
 
 func (s *streamRun) consume() {
